@@ -56,6 +56,9 @@ def make_indexed(workdir, name, text, kind="tbi", min_shift=14, bcf=False, lines
     data path.  kind in {tbi, csi}.  lines_per_block -> own BGZF writer (small blocks)."""
     vcf = os.path.join(workdir, name + ".vcf")
     gz = vcf + ".gz"
+    for stale in (gz + ".tbi", gz + ".csi", os.path.join(workdir, name + ".bcf.csi"), os.path.join(workdir, name + ".bcf")):
+        if os.path.exists(stale):
+            os.remove(stale)  # a leftover index of the other kind would be picked up first
     if lines_per_block:
         write_bgzf(gz, text, lines_per_block)
     else:
@@ -81,3 +84,29 @@ def index_path(data_path):
         if os.path.exists(data_path + suf):
             return data_path + suf
     raise FileNotFoundError(data_path)
+
+
+def write_bgzf_bytes(path, raw: bytes):
+    with open(path, "wb") as f:
+        for i in range(0, len(raw), 60000):
+            f.write(bgzf_block(raw[i : i + 60000]))
+        f.write(EOF_BLOCK)
+
+
+def strip_index_counts(model, idx_path):
+    """Rewrite a .tbi/.csi without its pseudo-bins (an old-style index that carries no
+    per-contig record counts), through the model's independent serialiser."""
+    import gzip
+
+    raw = gzip.open(idx_path).read()
+    if idx_path.endswith(".tbi"):
+        m = model.call(901, list(raw))
+        _, hdr8, names, bins, linear, counts, nnc = m
+        contigs = [[[b for b in bs if b[0] != 37450], li] for bs, li in zip(bins, linear)]
+        out = model.call(903, [hdr8[1:7], names, contigs, [nnc]])
+    else:
+        m = model.call(900, list(raw))
+        _, ms, depth, aux, bins, counts, nnc = m
+        pseudo = ((1 << (depth + 1) * 3) - 1) // 7 + 1
+        out = model.call(902, [ms, depth, aux, [[b for b in bs if b[0] != pseudo] for bs in bins], [nnc]])
+    write_bgzf_bytes(idx_path, bytes(out[0]))
